@@ -207,9 +207,10 @@ CheckCommit(x) ==
               THEN Emit([r.x EXCEPT !.fb = @ - 1], [k |-> "ProcessBlock", block |-> CtxBlock(x), ok |-> FALSE])
               ELSE Emit([r.x EXCEPT !.blockDone = TRUE], [k |-> "ProcessBlock", block |-> CtxBlock(x), ok |-> TRUE])
 
-CheckPreCommit(x) ==
-  IF ~HasAllTx(x) THEN x
-  ELSE IF Cardinality({i \in 1..x.n : x.pc[i].k = "pc" /\ x.pc[i].v = x.v}) < M(x) THEN x
+CheckPreCommit(x0) ==
+  IF ~HasAllTx(x0) THEN x0
+  ELSE LET x == IF W("precommits_unverified_at_count") THEN x0 ELSE VerifyPreCommitsAgainstPreBlock(x0) IN
+  IF Cardinality({i \in 1..x.n : x.pc[i].k = "pc" /\ x.pc[i].v = x.v}) < M(x) THEN x
   ELSE LET r == CreatePreBlock(x)   \* d.preBlock = d.CreatePreBlock()
            x1 == r.x
            x2 == IF x1.preDone /\ ~W("preblock_twice") THEN x1
